@@ -66,7 +66,7 @@ def baselines(ctx: Ctx):
         picked = disp.get(pair)
         where0 = f"{LY.MCM}::_BaseUnconditionalCubeCounts.factory[{pair}]"
         if picked is None:
-            ctx.violated("dispatch", where0, "no class", "a baseline class for every MR/non-MR pair")
+            ctx.undecided("dispatch", where0, "no class derived for this pair", "a baseline class for every MR/non-MR pair")
             continue
         ci, _leaf = picked
         rmr, cmr = pair[0] == "MR", pair[1] == "MR"
